@@ -7,6 +7,11 @@ open QV
 @[simp] theorem none_eval : Quirks.none.evalSeesLocals = false := rfl
 @[simp] theorem none_oraclize : Quirks.none.oraclizeRenames = false := rfl
 @[simp] theorem none_grover : Quirks.none.groverMutatesOracle = false := rfl
+@[simp] theorem none_bindOrig : Quirks.none.bindOrigWithoutDefs = false := rfl
+@[simp] theorem none_defShadows : Quirks.none.defShadowsAnnotation = false := rfl
+
+@[simp] theorem defShadows_none (annots : List String) (defs : List DefView) :
+    defShadows Quirks.none annots defs = false := by simp [defShadows]
 
 @[simp] theorem collides_none (ns : List (String × Src)) (r : List String) :
     collides Quirks.none ns r = false := by simp [collides]
@@ -26,7 +31,7 @@ theorem fp_none_ns (P : Pool) (ns ns' : List (String × Src)) (o : Obj) :
   cases o with
   | dead => rfl
   | qf f => simp [Obj.fp, qffp_none_ns P ns ns']
-  | unbound i => rfl
+  | unbound i defs => rfl
   | alg a =>
     simp only [Obj.fp]
     cases a.own with
@@ -40,7 +45,7 @@ theorem fromFunction_none_fst (P : Pool) (K : Oracle) (s : ApiState) (src : Src)
     (annots : List String) (params : Bool) (defs : List DefView) :
     (fromFunction Quirks.none P K s src key annots params defs).1 = s := by
   unfold fromFunction
-  simp only [collides_none, nsWrite_none, Bool.false_eq_true, ↓reduceIte]
+  simp only [collides_none, defShadows_none, nsWrite_none, Bool.false_eq_true, ↓reduceIte]
   split
   · rfl
   · split <;> rfl
@@ -192,7 +197,7 @@ theorem fromFunction_none_snd (P : Pool) (K : Oracle) (s s' : ApiState) (src : S
     (fromFunction Quirks.none P K s src key annots params defs).2 =
       (fromFunction Quirks.none P K s' src key annots params defs).2 := by
   unfold fromFunction
-  simp only [collides_none, nsWrite_none, Bool.false_eq_true, ↓reduceIte]
+  simp only [collides_none, defShadows_none, nsWrite_none, Bool.false_eq_true, ↓reduceIte]
   split
   · rfl
   · split <;> rfl
@@ -326,13 +331,15 @@ theorem close_newfp_congr (P : Pool) (x y : ApiState × Tri Obj) {n m : Nat}
 
 theorem fromFunction_noexec (q : Quirks) (P : Pool) (K : Oracle) (s : ApiState) (src : Src) (key : String)
     (annots : List String) (params : Bool) (defs : List DefView)
-    (hq : q.execIntoModuleGlobals = false) (he : q.evalSeesLocals = false) :
+    (hq : q.execIntoModuleGlobals = false) (he : q.evalSeesLocals = false)
+    (hd : q.defShadowsAnnotation = false) :
     fromFunction q P K s src key annots params defs = fromFunction Quirks.none P K s src key annots params defs := by
   unfold fromFunction
-  simp [collides, nsWrite, evalHitsLocal, hq, he]
+  simp [collides, nsWrite, evalHitsLocal, defShadows, hq, he, hd]
 
 theorem stepCore_eq_none_of_no_trigger (q : Quirks) (P : Pool) (K : Oracle) (s : ApiState) (op : Op)
     (hq : q.execIntoModuleGlobals = false) (he : q.evalSeesLocals = false)
+    (hd : q.defShadowsAnnotation = false)
     (ht : opTrigger q s op = false) :
     stepCore q P K s op = stepCore Quirks.none P K s op := by
   have hc : ∀ ns r, collides q ns r = false := by intro ns r; simp [collides, hq]
@@ -342,7 +349,7 @@ theorem stepCore_eq_none_of_no_trigger (q : Quirks) (P : Pool) (K : Oracle) (s :
     intro r f e hf hn
     unfold oraclizeCore
     simp only [hc, collides_none, none_oraclize, Bool.false_eq_true, ↓reduceIte,
-      fromFunction_noexec q P K _ _ _ _ _ _ hq he]
+      fromFunction_noexec q P K _ _ _ _ _ _ hq he hd]
     by_cases hren : q.oraclizeRenames = true
     · have hne : f.name ≠ "oracle" := by
         intro h
@@ -371,8 +378,10 @@ theorem stepCore_eq_none_of_no_trigger (q : Quirks) (P : Pool) (K : Oracle) (s :
       simp only [hne, beq_iff_eq, ↓reduceIte, hren, hset]
     · simp only [hren, Bool.false_eq_true, ↓reduceIte]
   cases op with
-  | compile i defs c => simp [stepCore, hc, fromFunction_noexec q P K _ _ _ _ _ _ hq he]
-  | bind r k => simp [stepCore, hc]
+  | compile i defs c => simp [stepCore, hc, fromFunction_noexec q P K _ _ _ _ _ _ hq he hd]
+  | bind r k =>
+    simp only [opTrigger] at ht
+    simp [stepCore, hc, boundOrig, ht]
   | oraclize r e =>
     simp only [stepCore]
     split
@@ -407,7 +416,7 @@ theorem stepCore_eq_none_of_no_trigger (q : Quirks) (P : Pool) (K : Oracle) (s :
   | dj r => simp [stepCore]
   | bv r => simp [stepCore]
   | simon r => simp [stepCore]
-  | secretOracle n sec => simp [stepCore, fromFunction_noexec q P K _ _ _ _ _ _ hq he]
+  | secretOracle n sec => simp [stepCore, fromFunction_noexec q P K _ _ _ _ _ _ hq he hd]
   | readOnly kind r => simp [stepCore, hc]
 
 end QV.Api
